@@ -264,6 +264,18 @@ fn edits<X: Sx>(ctx: &Ctx, idx: u64, l: usize, d: Vec<usize>, all_flips: bool) {
             at += 32;
         }
     }
+    // every scalar of the proof re-encoded as its non-canonical alias value + r (another octet string for the same proof)
+    {
+        let mut at = 144;
+        while at + 32 <= h.proof.len() {
+            if let Some(a) = alias_plus_r(&h.proof[at..at + 32]) {
+                let mut p = h.proof.clone();
+                p[at..at + 32].copy_from_slice(&a);
+                rj("proof-scalar-plus-r", format!("{}", (at - 144) / 32), &h.pk, &p, &dm, &h.d, ho, po);
+            }
+            at += 32;
+        }
+    }
     // extension by a partial scalar: 1..31 stray octets (and 33) after the proof
     for (k, b) in [(1usize, 0u8), (1, 0xff), (7, 0x55), (16, 0), (31, 0), (31, 0xff), (33, 1)] {
         let mut p = h.proof.clone();
@@ -283,6 +295,18 @@ fn edits<X: Sx>(ctx: &Ctx, idx: u64, l: usize, d: Vec<usize>, all_flips: bool) {
 pub const R_BE: [u8; 32] = [
     0x73, 0xed, 0xa7, 0x53, 0x29, 0x9d, 0x7d, 0x48, 0x33, 0x39, 0xd8, 0x08, 0x09, 0xa1, 0xd8, 0x05, 0x53, 0xbd, 0xa4, 0x02, 0xff, 0xfe, 0x5b, 0xfe, 0xff, 0xff, 0xff, 0xff, 0x00, 0x00, 0x00, 0x01,
 ];
+
+/// the non-canonical alias value + r of a 32-octet big-endian scalar (None if it does not fit in 32 octets)
+pub fn alias_plus_r(x: &[u8]) -> Option<Vec<u8>> {
+    let mut out = vec![0u8; 32];
+    let mut carry = 0u16;
+    for k in (0..32).rev() {
+        let s = x[k] as u16 + R_BE[k] as u16 + carry;
+        out[k] = s as u8;
+        carry = s >> 8;
+    }
+    if carry == 0 { Some(out) } else { None }
+}
 
 // ---------------------------------------------------------------- workload B: forgeries
 
